@@ -292,10 +292,15 @@ func runC06R4(c *Ctx) { runRedirectValidators(c, "R4-validator-structure", true)
 func runRedirectValidators(c *Ctx, rule string, withRedirect bool) {
 	ivr := c.Fn(rule, "(*pkg/app/redirect.validator).IsValidRedirect")
 	iea := c.Fn(rule, "pkg/util.IsEndpointAllowed")
-	iha := c.Fn(rule, "pkg/util.isHostnameAllowed")
+	// isHostnameAllowed is analysed on its own when it exists as a function (today); when a refactoring has inlined it
+	// into IsEndpointAllowed, the same acceptance conditions are decided on IsEndpointAllowed's accepting paths
+	iha := c.P.Func("pkg/util.isHostnameAllowed")
+	if iha != nil {
+		c.Fn(rule, "pkg/util.isHostnameAllowed") // an anchor: never inlined
+	}
 	shp := c.Fn(rule, "pkg/util.SplitHostPort")
 	allowedF := c.Field(rule, "pkg/app/redirect.validator.allowedDomains")
-	if ivr == nil || iea == nil || iha == nil || shp == nil || allowedF == nil {
+	if ivr == nil || iea == nil || shp == nil || allowedF == nil {
 		return
 	}
 	in := ivr.Params[1]
@@ -356,24 +361,48 @@ func runRedirectValidators(c *Ctx, rule string, withRedirect bool) {
 		}
 		at := p.End()
 		key := "true-return|" + fnKey(iea)
-		hc, ok := HasLast(p, at, Need{M: walk.Static(iha), Idx: -1, Out: IsTrue})
-		if !ok {
-			c.bad(rule, key, p.Exit, "IsEndpointAllowed accepts without isHostnameAllowed", p, at)
-			return
-		}
-		// hostname = endpoint.Hostname(); allowedHost = SplitHostPort(elem)#0, non-empty
-		hn, ok1 := extractOfCall(p, p.Arg(hc, 0), 0)
-		okHost := ok1 && hn.C.StaticCallee() != nil && hn.C.StaticCallee().Name() == "Hostname" && p.Resolve(p.Arg(hn, 0)).V == iea.Params[0]
-		sp, ok2 := extractOfCall(p, p.Arg(hc, 1), 0)
-		okSplit := ok2 && sp.C.StaticCallee() == shp
-		nonEmpty := okSplit && eqConstAtom(p, at, false, "", func(x walk.DV) bool { return p.Same(x, p.Arg(hc, 1)) })
-		if !okHost || !okSplit {
-			c.bad(rule, key, p.Exit, "isHostnameAllowed is not applied to (endpoint.Hostname(), host part of a whitelist entry)", p, at)
-			return
-		}
-		if !nonEmpty {
-			c.bad(rule, key, p.Exit, "a whitelist entry with an empty host part is not skipped: it matches URLs with an empty host such as https:///evil.example", p, at)
-			return
+		var sp walk.Call
+		if iha != nil {
+			hc, ok := HasLast(p, at, Need{M: walk.Static(iha), Idx: -1, Out: IsTrue})
+			if !ok {
+				c.bad(rule, key, p.Exit, "IsEndpointAllowed accepts without isHostnameAllowed", p, at)
+				return
+			}
+			// hostname = endpoint.Hostname(); allowedHost = SplitHostPort(elem)#0, non-empty
+			hn, ok1 := extractOfCall(p, p.Arg(hc, 0), 0)
+			okHost := ok1 && hn.C.StaticCallee() != nil && hn.C.StaticCallee().Name() == "Hostname" && p.Resolve(p.Arg(hn, 0)).V == iea.Params[0]
+			sp2, ok2 := extractOfCall(p, p.Arg(hc, 1), 0)
+			okSplit := ok2 && sp2.C.StaticCallee() == shp
+			nonEmpty := okSplit && eqConstAtom(p, at, false, "", func(x walk.DV) bool { return p.Same(x, p.Arg(hc, 1)) })
+			if !okHost || !okSplit {
+				c.bad(rule, key, p.Exit, "isHostnameAllowed is not applied to (endpoint.Hostname(), host part of a whitelist entry)", p, at)
+				return
+			}
+			if !nonEmpty {
+				c.bad(rule, key, p.Exit, "a whitelist entry with an empty host part is not skipped: it matches URLs with an empty host such as https:///evil.example", p, at)
+				return
+			}
+			sp = sp2
+		} else {
+			// the host comparison lives in this function: the entry of the accepting (last) iteration
+			sp2, ok := HasLast(p, at, Need{M: walk.Static(shp), Out: Called})
+			if !ok {
+				c.bad(rule, key, p.Exit, "IsEndpointAllowed accepts without splitting a whitelist entry into host and port", p, at)
+				return
+			}
+			isAllowed := func(x walk.DV) bool { return ResultIs(p, x, sp2, 0) }
+			isHost := func(x walk.DV) bool {
+				hn, ok := extractOfCall(p, x, 0)
+				return ok && hn.C.StaticCallee() != nil && hn.C.StaticCallee().Name() == "Hostname" && p.Resolve(p.Arg(hn, 0)).V == iea.Params[0]
+			}
+			if !eqConstAtom(p, at, false, "", isAllowed) {
+				c.bad(rule, key, p.Exit, "a whitelist entry with an empty host part is not skipped: it matches URLs with an empty host such as https:///evil.example", p, at)
+				return
+			}
+			if !checkHostAcceptance(c, rule, "host-accepted|"+fnKey(iea), p, at, isHost, isAllowed) {
+				return
+			}
+			sp = sp2
 		}
 		// port conditions
 		allowedPort := p.ResultKey(sp.DV(), 1)
@@ -392,57 +421,76 @@ func runRedirectValidators(c *Ctx, rule string, withRedirect bool) {
 		}
 	})
 	// isHostnameAllowed
-	host, allowed := iha.Params[0], iha.Params[1]
-	c.Walk(rule, iha, func(p *walk.Path) {
-		rv, ok := p.ReturnDV(0)
-		if !ok {
-			return
-		}
-		if b, k := p.Truth(rv, p.End()); k && !b {
-			return
-		}
-		at := p.End()
-		key := "true-return|" + fnKey(iha)
-		isHost := func(x walk.DV) bool { return p.Resolve(x).V == host }
-		isAllowed := func(x walk.DV) bool { return p.Resolve(x).V == allowed }
-		// equality with the bare name
-		bare := eqAtom(p, at, true, isHost, func(x walk.DV) bool {
-			call, ok := p.Resolve(x).V.(*ssa.Call)
-			if !ok || !isStd(&call.Call, "strings", "TrimPrefix") || call.Call.Args[0] != allowed {
-				return false
+	if iha != nil {
+		host, allowed := iha.Params[0], iha.Params[1]
+		c.Walk(rule, iha, func(p *walk.Path) {
+			rv, ok := p.ReturnDV(0)
+			if !ok {
+				return
 			}
-			s, _ := ConstString(call.Call.Args[1])
-			return s == "." || s == "*."
-		}) || eqAtom(p, at, true, isHost, isAllowed)
-		if bare {
-			c.ok(rule, key+"|exact", p.Exit, "hostname equals the entry's bare name")
-			return
-		}
-		// suffix tests: every accepting suffix operand must be known to start with '.'
-		okSuffix, any := true, false
-		for _, a := range p.Atoms(at) {
-			call, ok := a.DV.V.(*ssa.Call)
-			if !ok || a.IsNil || !a.Val || !isStd(&call.Call, "strings", "HasSuffix") {
-				continue
+			if b, k := p.Truth(rv, p.End()); k && !b {
+				return
 			}
-			if !isHost(p.Op(call.Call.Args[0], a.DV)) {
-				continue
-			}
-			any = true
-			op := p.Resolve(p.Op(call.Call.Args[1], a.DV))
-			switch {
-			case op.V == allowed && strCallAtom(p, at, "HasPrefix", true, isAllowed, isConstStr(p, ".")):
-			case isSliceFrom(op.V, allowed, 1) && strCallAtom(p, at, "HasPrefix", true, isAllowed, isConstStr(p, "*.")):
-			default:
-				okSuffix = false
+			isHost := func(x walk.DV) bool { return p.Resolve(x).V == ssa.Value(host) }
+			isAllowed := func(x walk.DV) bool { return p.Resolve(x).V == ssa.Value(allowed) }
+			checkHostAcceptance(c, rule, "true-return|"+fnKey(iha), p, p.End(), isHost, isAllowed)
+		})
+	}
+}
+
+// checkHostAcceptance judges one accepting path: the hostname equals the whitelist entry's bare name, or it passed a
+// suffix test whose operand is known to begin with '.' (label boundary). isHost / isAllowed identify the two
+// strings on this path (parameters of isHostnameAllowed, or the values of IsEndpointAllowed's accepting iteration).
+func checkHostAcceptance(c *Ctx, rule, key string, p *walk.Path, at int, isHost, isAllowed func(walk.DV) bool) bool {
+	// equality with the bare name
+	bare := eqAtom(p, at, true, isHost, func(x walk.DV) bool {
+		r := p.Resolve(x)
+		call, ok := r.V.(*ssa.Call)
+		if !ok || !isStd(&call.Call, "strings", "TrimPrefix") || !isAllowed(p.Op(call.Call.Args[0], r)) {
+			return false
+		}
+		s, _ := ConstString(call.Call.Args[1])
+		return s == "." || s == "*."
+	}) || eqAtom(p, at, true, isHost, isAllowed)
+	if bare {
+		c.ok(rule, key+"|exact", p.Exit, "hostname equals the entry's bare name")
+		return true
+	}
+	// suffix tests: every accepting suffix operand must be known to start with '.'
+	okSuffix, any := true, false
+	for _, a := range p.Atoms(at) {
+		call, ok := a.DV.V.(*ssa.Call)
+		if !ok || a.IsNil || !a.Val || !isStd(&call.Call, "strings", "HasSuffix") {
+			continue
+		}
+		if !isHost(p.Op(call.Call.Args[0], a.DV)) {
+			continue
+		}
+		op := p.Resolve(p.Op(call.Call.Args[1], a.DV))
+		sliceFrom1, sliceOfAllowed := false, false
+		if sl, ok := op.V.(*ssa.Slice); ok && isAllowed(p.Op(sl.X, op)) {
+			sliceOfAllowed = true
+			if n, ok := ConstInt(sl.Low); ok && sl.High == nil && sl.Low != nil && n == 1 {
+				sliceFrom1 = true
 			}
 		}
-		if any && okSuffix {
-			c.ok(rule, key+"|subdomain", p.Exit, "suffix test against an operand known to begin with '.' (label boundary)")
-		} else {
-			c.bad(rule, key, p.Exit, "a hostname is accepted by a suffix test whose operand is not known to begin with '.' (evilexample.com vs .example.com), or without any comparison", p, at)
+		if !isAllowed(op) && !sliceOfAllowed {
+			continue // a suffix test of another loop iteration (another whitelist entry, whose port rule then failed)
 		}
-	})
+		any = true
+		switch {
+		case isAllowed(op) && strCallAtom(p, at, "HasPrefix", true, isAllowed, isConstStr(p, ".")):
+		case sliceFrom1 && strCallAtom(p, at, "HasPrefix", true, isAllowed, isConstStr(p, "*.")):
+		default:
+			okSuffix = false
+		}
+	}
+	if any && okSuffix {
+		c.ok(rule, key+"|subdomain", p.Exit, "suffix test against an operand known to begin with '.' (label boundary)")
+		return true
+	}
+	c.bad(rule, key, p.Exit, "a hostname is accepted by a suffix test whose operand is not known to begin with '.' (evilexample.com vs .example.com), or without any comparison", p, at)
+	return false
 }
 
 // isSliceFrom: v is base[low:] with a constant low.
